@@ -537,7 +537,12 @@ theorem runCb_winv (s : St) (c : Cb) (h : WInv s) : WInv (runCb s c) := by
     split
     · -- waitMsg
       split
-      · exact startRun_winv _ _ _ (by simp) (fun hh => by simp [needIdle] at hh)
+      · -- resolved: with or without the generated `recheckForceCloseAfterWait`
+        first
+          | exact startRun_winv _ _ _ (by simp) (fun hh => by simp [needIdle] at hh)
+          | (split
+             · exact WInv.of_np (by simp)
+             · exact startRun_winv _ _ _ (by simp) (fun hh => by simp [needIdle] at hh))
       · exact WInv.of_np (by simp)
       · exact h
     · -- awaitHandler
@@ -805,38 +810,42 @@ theorem parserCall_q (s : St) :
     simp only [Bool.or_eq_false_iff, Bool.not_eq_false'] at h
     exact h
 
+/-- one parser call followed by queueing its output keeps the cap invariant -/
+theorem parse_enqueue_qinv (s : St) (hq : QInv s) :
+    QInv (enqueueOut (applyOlds (parserCall s).2 (parserCall s).1.olds) (parserCall s).1) := by
+  obtain ⟨a, b, c, d⟩ := parserCall_q s
+  generalize parserCall s = r at a b c d
+  intro hv
+  have hv' : r.2.capViolated = false := by
+    unfold enqueueOut at hv
+    split at hv
+    · have := q4_applyOlds r.2 r.1.olds
+      simp only [q4, Prod.mk.injEq] at this
+      rw [← this.1]; exact hv
+    · have h1 := (appendMsgs_q (applyOlds r.2 r.1.olds) r.1.msgs).1
+      have := q4_applyOlds r.2 r.1.olds
+      simp only [q4, Prod.mk.injEq] at this
+      rw [← this.1, ← h1]; exact hv
+  obtain ⟨hs, hcap⟩ := d hv'
+  have hq2 : QInv (applyOlds r.2 r.1.olds) := by
+    have h4 := q4_applyOlds r.2 r.1.olds
+    simp only [q4, Prod.mk.injEq] at h4
+    intro _
+    rw [h4.2.1, h4.2.2.1, h4.2.2.2, a, b, c]
+    exact hq hs
+  have hcap' : r.1.respectsCap (applyOlds r.2 r.1.olds).inFlight = true := by
+    have h4 := q4_applyOlds r.2 r.1.olds
+    simp only [q4, Prod.mk.injEq] at h4
+    rw [h4.2.1, a]; exact hcap
+  exact enqueueOut_qinv _ _ hq2 hcap' hv
+
 theorem dataReceived_qinv (s : St) (n : Nat) (hq : QInv s) : QInv (dataReceived s n) := by
   unfold dataReceived
   split
   · exact hq
   · split
     · simp only []
-      obtain ⟨a, b, c, d⟩ := parserCall_q s
-      generalize hr : parserCall s = r at a b c d
-      refine QInv.of_q4 (s := enqueueOut (applyOlds r.2 r.1.olds) r.1) (by simp) ?_
-      intro hv
-      have hv' : r.2.capViolated = false := by
-        unfold enqueueOut at hv
-        split at hv
-        · have := q4_applyOlds r.2 r.1.olds
-          simp only [q4, Prod.mk.injEq] at this
-          rw [← this.1]; exact hv
-        · have h1 := (appendMsgs_q (applyOlds r.2 r.1.olds) r.1.msgs).1
-          have := q4_applyOlds r.2 r.1.olds
-          simp only [q4, Prod.mk.injEq] at this
-          rw [← this.1, ← h1]; exact hv
-      obtain ⟨hs, hcap⟩ := d hv'
-      have hq2 : QInv (applyOlds r.2 r.1.olds) := by
-        have h4 := q4_applyOlds r.2 r.1.olds
-        simp only [q4, Prod.mk.injEq] at h4
-        intro _
-        rw [h4.2.1, h4.2.2.1, h4.2.2.2, a, b, c]
-        exact hq hs
-      have hcap' : r.1.respectsCap (applyOlds r.2 r.1.olds).inFlight = true := by
-        have h4 := q4_applyOlds r.2 r.1.olds
-        simp only [q4, Prod.mk.injEq] at h4
-        rw [h4.2.1, a]; exact hcap
-      exact enqueueOut_qinv _ _ hq2 hcap' hv
+      exact QInv.of_q4 (by simp) (parse_enqueue_qinv s hq)
     · split
       · exact QInv.of_q4 (by simp) hq
       · exact hq
@@ -880,5 +889,362 @@ theorem popPrep_qinv (s : St) (m : QMsg) (rest : List QMsg) (hm : s.messages = m
   split
   · exact resumeMsgQ_qinv _ h1
   · exact h1
+
+/-! ### threading the cap invariant through the whole step function -/
+
+@[simp] theorem q4_transportClose (s : St) : q4 (transportClose s) = q4 s := by unfold transportClose; frame
+@[simp] theorem q4_cancelLinger (s : St) : q4 (cancelLinger s) = q4 s := rfl
+@[simp] theorem q4_cancelKa (s : St) : q4 (cancelKa s) = q4 s := rfl
+@[simp] theorem q4_updCur (s : St) (f) : q4 (updCur s f) = q4 s := rfl
+@[simp] theorem q4_emit (s : St) (e) : q4 (emit s e) = q4 s := rfl
+@[simp] theorem q4_finishH (s : St) (r) : q4 (finishH s r) = q4 s := rfl
+@[simp] theorem q4_cancelWaiter (s : St) : q4 (cancelWaiter s) = q4 s := by unfold cancelWaiter; frame
+
+theorem q4_forceClose (s : St) : q4 (forceClose s) = q4 s := by
+  unfold forceClose
+  simp only []
+  split
+  · exact ((rfl : q4 { transportClose _ with tPresent := false } = q4 (transportClose _)).trans (q4_transportClose _)).trans
+      ((q4_cancelWaiter _).trans rfl)
+  · exact (q4_cancelWaiter _).trans rfl
+
+theorem q4_closeConn (s : St) : q4 (closeConn s) = q4 s := by
+  unfold closeConn; exact (q4_cancelWaiter _).trans rfl
+
+theorem q4_connectionLost (s : St) : q4 (connectionLost s) = q4 s := by
+  unfold connectionLost
+  split
+  · rfl
+  · simp only []
+    split
+    · exact (q4_payloadEvent _ _ _ _ _).trans ((rfl : q4 (cancelKa { forceClose s with tPresent := false, managerPresent := false, parserPresent := false }) = q4 (forceClose s)).trans (q4_forceClose s))
+    · exact (rfl : q4 (cancelKa { forceClose s with tPresent := false, managerPresent := false, parserPresent := false }) = q4 (forceClose s)).trans (q4_forceClose s)
+
+theorem q4_processKeepalive (s : St) : q4 (processKeepalive s) = q4 s := by
+  unfold processKeepalive
+  simp only []
+  split
+  · rfl
+  · split
+    · rfl
+    · split
+      · exact (q4_forceClose _).trans rfl
+      · rfl
+
+theorem protoResume_qinv (s : St) (hq : QInv s) : QInv (protoResume s) := by
+  unfold protoResume
+  simp only []
+  split
+  · have h := dataReceived_qinv { s with readingPaused := false } 0 (QInv.of_q4 rfl hq)
+    split
+    · exact QInv.of_q4 rfl h
+    · exact h
+  · split <;> exact QInv.of_q4 rfl hq
+
+theorem drainChunks_qinv (s : St) (i n : Nat) (hq : QInv s) : QInv (drainChunks s i n) := by
+  induction n generalizing s with
+  | zero => exact hq
+  | succ n ih =>
+    simp only [drainChunks]
+    exact ih _ (protoResume_qinv _ (QInv.of_q4 (by simp) hq))
+
+theorem reparseTail_qinv (s : St) (hq : QInv s) : QInv (reparseTail s) := by
+  unfold reparseTail
+  split
+  · simp only []
+    split
+    · have h1 := parse_enqueue_qinv { s with upgraded := false } (QInv.of_q4 rfl hq)
+      split
+      · exact QInv.of_q4 (by simp; rfl) h1
+      · split
+        · exact resumeMsgQ_qinv _ (QInv.of_q4 rfl h1)
+        · exact QInv.of_q4 rfl h1
+    · exact QInv.of_q4 rfl hq
+  · exact hq
+
+theorem finishFresh_qinv (s : St) (c st ka) (hq : QInv s) : QInv (finishFresh s c st ka) := by
+  unfold finishFresh
+  simp only []
+  have h1 : QInv (reparseTail { s with currentRequest := none }) := reparseTail_qinv _ (QInv.of_q4 rfl hq)
+  split <;> exact QInv.of_q4 (by simp) h1
+
+theorem finishDone_qinv (s : St) (ka) (hq : QInv s) : QInv (finishDone s ka) := by
+  unfold finishDone
+  have h1 : QInv (reparseTail { s with currentRequest := none }) := reparseTail_qinv _ (QInv.of_q4 rfl hq)
+  exact QInv.of_q4 (s := reparseTail { s with currentRequest := none }) (by simp) h1
+
+theorem handleError_qinv (s : St) (c st) (hq : QInv s) : QInv (handleError s c st) := by
+  unfold handleError
+  split
+  · exact QInv.of_q4 rfl hq
+  · exact finishFresh_qinv _ _ _ _ hq
+
+theorem runProg_qinv : ∀ (fuel : Nat) (s : St) (prog : Prog), QInv s → QInv (runProg fuel s prog)
+  | 0, s, _, hq => by simp only [runProg]; exact QInv.of_q4 rfl hq
+  | fuel + 1, s, prog, hq => by
+    have ih := runProg_qinv fuel
+    simp only [runProg]
+    split
+    · exact QInv.of_q4 rfl hq
+    · next c hc =>
+      split
+      · exact finishFresh_qinv _ _ _ _ hq
+      · exact QInv.of_q4 rfl hq
+      · -- read
+        try simp only []
+        split
+        · exact ih _ _ hq
+        · split
+          · exact handleError_qinv _ _ _ hq
+          · split
+            · exact ih _ _ (drainChunks_qinv _ _ _ hq)
+            · split
+              · exact ih _ _ hq
+              · split
+                · exact handleError_qinv _ _ _ hq
+                · exact QInv.of_q4 rfl hq
+      · -- prepare
+        split
+        · exact ih _ _ hq
+        · split
+          · exact QInv.of_q4 (by simp) hq
+          · refine ih _ _ (QInv.of_q4 ?_ hq)
+            split <;> simp
+      · -- write
+        split
+        · exact ih _ _ hq
+        · split
+          · exact handleError_qinv _ _ _ hq
+          · split
+            · exact QInv.of_q4 rfl hq
+            · exact ih _ _ (QInv.of_q4 (by simp) hq)
+      · -- fin
+        split
+        · split
+          · split
+            · exact QInv.of_q4 rfl hq
+            · exact finishDone_qinv _ _ (QInv.of_q4 (by simp) hq)
+          · exact finishFresh_qinv _ _ _ _ hq
+        · exact finishFresh_qinv _ _ _ _ hq
+        · exact finishFresh_qinv _ _ _ _ hq
+        · exact handleError_qinv _ _ _ (QInv.of_q4 rfl hq)
+        · exact handleError_qinv _ _ _ (QInv.of_q4 rfl hq)
+        · exact QInv.of_q4 rfl hq
+        · exact finishFresh_qinv _ _ _ _ hq
+
+theorem handlerStart_qinv (fuel : Nat) (s : St) (m : QMsg) (hq : QInv s) : QInv (handlerStart fuel s m) := by
+  unfold handlerStart
+  simp only []
+  have h0 : QInv { s with cur := some { idx := m.idx, err := m.err, info := m.info }, currentRequest := some m.idx, hpc := .idle } :=
+    QInv.of_q4 rfl hq
+  split
+  · exact finishFresh_qinv _ _ _ _ h0
+  · split
+    · split
+      · split
+        · exact QInv.of_q4 (by simp) h0
+        · exact runProg_qinv _ _ _ (QInv.of_q4 rfl h0)
+      · split
+        · exact QInv.of_q4 rfl h0
+        · exact finishFresh_qinv _ _ _ _ h0
+    · exact runProg_qinv _ _ _ (QInv.of_q4 rfl h0)
+
+theorem startRun_qinv : ∀ (fuel : Nat) (s : St) (k : SCont), QInv s → QInv (startRun fuel s k)
+  | 0, s, k, hq => by simp only [startRun]; exact QInv.of_q4 rfl hq
+  | fuel + 1, s, k, hq => by
+    have ih := startRun_qinv fuel
+    cases k with
+    | top =>
+      simp only [startRun]
+      split
+      · exact ih _ _ hq
+      · split
+        · exact QInv.of_q4 rfl hq
+        · exact ih _ _ hq
+    | pop =>
+      simp only [startRun]
+      split
+      · exact QInv.of_q4 rfl hq
+      · next m rest hm =>
+        try simp only []
+        have h1 := popPrep_qinv s m rest hm hq
+        split
+        · exact QInv.of_q4 rfl h1
+        · have h2 := handlerStart_qinv fuel _ m h1
+          split
+          · exact ih _ _ h2
+          · exact QInv.of_q4 rfl h2
+    | afterHandler r =>
+      simp only [startRun]
+      cases r with
+      | connErr => exact ih _ _ (QInv.of_q4 rfl hq)
+      | cancelled =>
+        try simp only []
+        exact QInv.of_q4 ((rfl : q4 { forceClose _ with spc := .done, cur := none } = q4 (forceClose _)).trans (q4_forceClose _)) (QInv.of_q4 (s := s) rfl hq)
+      | crashed =>
+        try simp only []
+        exact ih _ _ (QInv.of_q4 (q4_forceClose _) (QInv.of_q4 (s := s) rfl hq))
+      | resp ka reset =>
+        try simp only []
+        split
+        · exact ih _ _ (QInv.of_q4 rfl hq)
+        · split
+          · exact ih _ _ (QInv.of_q4 rfl hq)
+          · split
+            · split
+              · exact ih _ _ (QInv.of_q4 rfl hq)
+              · exact ih _ _ (QInv.of_q4 rfl hq)
+            · exact ih _ _ (QInv.of_q4 rfl hq)
+    | linger endT =>
+      simp only [startRun]
+      split
+      · exact ih _ _ hq
+      · next c hc =>
+        try simp only []
+        split
+        · exact ih _ _ (QInv.of_q4 rfl hq)
+        · split
+          · split
+            · exact ih _ _ (QInv.of_q4 (q4_forceClose _) (QInv.of_q4 (s := s) rfl hq))
+            · split
+              · exact ih _ _ (drainChunks_qinv _ _ _ (QInv.of_q4 (s := s) rfl hq))
+              · split
+                · exact ih _ _ (QInv.of_q4 (q4_forceClose _) (QInv.of_q4 (s := s) rfl hq))
+                · refine QInv.of_q4 (s := s) ?_ hq
+                  split <;> rfl
+          · exact ih _ _ (QInv.of_q4 rfl hq)
+    | afterLinger =>
+      simp only [startRun]
+      split
+      · exact ih _ _ hq
+      · next c hc =>
+        try simp only []
+        split
+        · exact ih _ _ (QInv.of_q4 ((q4_payloadEvent _ _ _ _ _).trans (q4_closeConn s)) hq)
+        · exact ih _ _ (QInv.of_q4 (q4_payloadEvent _ _ _ _ _) hq)
+    | decide =>
+      simp only [startRun]
+      split
+      · split
+        · exact ih _ _ (QInv.of_q4 rfl hq)
+        · exact ih _ _ (QInv.of_q4 rfl hq)
+      · exact ih _ _ (QInv.of_q4 rfl hq)
+    | epilogue =>
+      simp only [startRun]
+      split
+      · split
+        · exact QInv.of_q4 ((q4_transportClose _).trans rfl) hq
+        · exact QInv.of_q4 rfl hq
+      · exact QInv.of_q4 rfl hq
+
+theorem runCb_qinv (s : St) (c : Cb) (hq : QInv s) : QInv (runCb s c) := by
+  cases c with
+  | startWake =>
+    simp only [runCb]
+    split
+    · split
+      · first
+          | exact startRun_qinv _ _ _ (QInv.of_q4 rfl hq)
+          | (split
+             · exact QInv.of_q4 rfl hq
+             · exact startRun_qinv _ _ _ (QInv.of_q4 rfl hq))
+      · exact QInv.of_q4 rfl hq
+      · exact hq
+    · split
+      · exact startRun_qinv _ _ _ hq
+      · exact hq
+    · split
+      · try simp only []
+        split
+        · exact startRun_qinv _ _ _ (drainChunks_qinv _ _ _ (QInv.of_q4 (s := s) rfl hq))
+        · exact startRun_qinv _ _ _ (QInv.of_q4 (s := s) rfl hq)
+      · exact hq
+    · exact hq
+  | handlerWake =>
+    simp only [runCb]
+    split
+    · exact hq
+    · next s' hs' =>
+      have key : QInv s' := by
+        split at hs'
+        · split at hs'
+          · injection hs' with hs'
+            subst hs'
+            exact runProg_qinv _ _ _ (QInv.of_q4 rfl hq)
+          · cases hs'
+        · split at hs'
+          · injection hs' with hs'
+            subst hs'
+            try simp only []
+            split
+            · exact runProg_qinv _ _ _ (drainChunks_qinv _ _ _ (QInv.of_q4 (s := s) rfl hq))
+            · exact runProg_qinv _ _ _ (QInv.of_q4 (s := s) rfl hq)
+          · cases hs'
+        · cases hs'
+      split
+      · split
+        · exact QInv.of_q4 rfl key
+        · exact key
+      · exact key
+  | connLost => exact QInv.of_q4 ((q4_connectionLost _).trans rfl) hq
+  | kaFire => exact QInv.of_q4 (q4_processKeepalive s) hq
+  | sleepFire => exact QInv.of_q4 rfl hq
+  | lingerFire =>
+    simp only [runCb]
+    split
+    · split
+      · try simp only []
+        split
+        · exact QInv.of_q4 rfl hq
+        · exact QInv.of_q4 rfl hq
+      · exact hq
+    · exact hq
+
+theorem moveDue_q4 (s : St) : q4 (moveDue s) = q4 s := by
+  unfold moveDue
+  simp only []
+  generalize (List.foldl (fun acc t => insertT t acc) [] (dueTimers s)) = due
+  induction due generalizing s with
+  | nil => rfl
+  | cons t ts ih =>
+    simp only [List.foldl_cons]
+    rw [ih]
+    split <;> rfl
+
+theorem step_qinv (s : St) (l : Label) (hq : QInv s) : QInv (step s l) := by
+  cases l with
+  | data n =>
+    simp only [step]
+    split
+    · exact hq
+    · exact dataReceived_qinv s n hq
+  | lost =>
+    simp only [step]
+    split
+    · exact hq
+    · exact QInv.of_q4 ((q4_connectionLost _).trans rfl) hq
+  | tick =>
+    simp only [step]
+    split
+    · exact hq
+    · exact runCb_qinv _ _ (QInv.of_q4 rfl hq)
+  | fire limit =>
+    simp only [step]
+    split
+    · exact hq
+    · split
+      · split
+        · exact QInv.of_q4 ((moveDue_q4 _).trans rfl) hq
+        · exact QInv.of_q4 rfl hq
+      · exact QInv.of_q4 rfl hq
+
+theorem init_qinv (cfg : Cfg) (progs : List Prog) (oracle : List POut) : QInv (init cfg progs oracle) := by
+  unfold init
+  exact startRun_qinv _ _ _ (by intro _; exact ⟨Nat.zero_le _, fun _ => Nat.le_refl 0⟩)
+
+theorem run_qinv (s : St) (ls : List Label) (h : QInv s) : QInv (run s ls) := by
+  induction ls generalizing s with
+  | nil => exact h
+  | cons l ls ih => exact ih _ (step_qinv s l h)
 
 end Aio.C05
